@@ -44,6 +44,8 @@ def run(ctx):
     o2_cpp(ctx)
     o3_levelset(ctx)
     o4_mortar(ctx)
+    o4_assembly(ctx)
+    o2_closest_by_abs(ctx)
     # the overlap measure relies on the smoothed end parameter being the specified C1 ramp (shared with C18)
     from . import C18
     C18.smooth_linear(ctx)
@@ -256,6 +258,127 @@ def o3_levelset(ctx):
         ctx.decide(rule, ok, sc, None, construct=f"{total}:roles", detail=shown, bad_detail=f"{total} maps the kernel as `{shown}`; arguments or mapped axis do not match the kernel's parameters {ker.params()}")
 
 
+def o2_closest_by_abs(ctx):
+    """Closest edge / closest distance: the winner among candidate edges is the one of smallest ABSOLUTE signed distance
+    (EdgeCpp.cpp_distance is signed: negative when penetrating).  Every argmin over such distances must rank |d|."""
+    rule = "O2/T6-closest-by-absolute-distance"
+    CT = "optimism.contact.Contact"
+    mod = ctx.need_module(CT)
+    n = 0
+    for sc in ctx.repo.functions():
+        if sc.module.name != CT:
+            continue
+        cfg = None
+        for c in calls_in(sc):
+            if (dotted(c.func) or "").split(".")[-1] != "argmin" or not c.args:
+                continue
+            cfg = cfg or cfg_of(sc)
+            nd = [x for x in cfg.nodes if x.ast is not None and any(y is c for y in ast.walk(x.ast))]
+            if not nd:
+                continue
+            arg = expand(cfg, nd[0], c.args[0])
+            signed = [k for k in ast.walk(arg) if isinstance(k, (ast.Attribute, ast.Name)) and (dotted(k) or "").split(".")[-1] == "cpp_distance"]
+            if not signed:
+                continue
+            n += 1
+            # the signed-distance producer must sit under abs(...) inside the argmin argument
+            def under_abs(root, target):
+                for k in ast.walk(root):
+                    if isinstance(k, ast.Call) and (dotted(k.func) or "").split(".")[-1] in ("abs", "absolute", "fabs") and any(t is target for t in ast.walk(k)):
+                        return True
+                return False
+            ok = all(under_abs(arg, t) for t in signed)
+            ctx.decide(rule, ok, sc, c, construct=f"{sc.qualname.split(':')[-1]}:argmin-of-absolute-distance", detail=f"argmin({src(arg)[:70]})",
+                       bad_detail=f"`{src(c)}` ranks the SIGNED distances `{src(arg)[:90]}`: when the point penetrates, the most negative distance wins instead of the nearest edge")
+    if n < 2:
+        raise Incomplete(f"{n} closest-edge selections over signed distances found in Contact.py (2 expected)")
+
+
+def o4_assembly(ctx):
+    """Nodal mortar integrals: the (1 - xi)-weighted integral belongs to the first node of the B segment, the xi-weighted one to its
+    second node.  Tags are propagated through tuple returns, vmap and tuple unpacking down to the scatter-add."""
+    rule = "O4/T5-mortar-assembly-pairing"
+    asm = ctx.need(f"{MC}:assembly_mortar_integral")
+
+    def kids(sc):
+        return [c for c in sc.children if c.kind == "function"]
+    outer = kids(asm)
+    if len(outer) != 1 or len(kids(outer[0])) != 1:
+        ctx.undecided(rule, asm, None, construct="structure", detail="nested per-segment / per-pair functions not found")
+        return
+    per_seg, per_pair = outer[0], kids(outer[0])[0]
+
+    def weight_tag(call):
+        lam = [a for a in call.args if isinstance(a, ast.Lambda)]
+        if not lam:
+            return None
+        lam = lam[-1]
+        p0 = lam.args.args[0].arg
+        has_1m = any(isinstance(k, ast.BinOp) and isinstance(k.op, ast.Sub) and const_value(k.left) == 1 and isinstance(k.right, ast.Name) and k.right.id == p0
+                     for k in ast.walk(lam.body))
+        uses = any(isinstance(k, ast.Name) and k.id == p0 for k in ast.walk(lam.body))
+        return "L" if has_1m else ("R" if uses else None)
+
+    def run_fn(sc, env_in, top=False):
+        env = dict(env_in)
+        seg = sc.params()[0]
+
+        def tag(e):
+            if isinstance(e, ast.Name):
+                return env.get(e.id)
+            if isinstance(e, ast.Subscript) and isinstance(e.value, ast.Name) and e.value.id == seg and const_value(e.slice) in (0, 1):
+                return f"n{const_value(e.slice)}"
+            if isinstance(e, ast.Tuple):
+                return tuple(tag(x) for x in e.elts)
+            if isinstance(e, ast.Call):
+                last = (dotted(e.func) or "").split(".")[-1]
+                if last == "integrate_with_mortar":
+                    return weight_tag(e)
+                if last in ("sum", "nansum") and e.args:
+                    return tag(e.args[0])
+                if isinstance(e.func, ast.Call) and (dotted(e.func.func) or "").split(".")[-1] == "vmap" and e.func.args and isinstance(e.func.args[0], ast.Name):
+                    return env.get("@ret:" + e.func.args[0].id)
+            return None
+        for st in sc.node.body:
+            if isinstance(st, ast.FunctionDef):
+                inner = [c for c in sc.children if c.node is st]
+                if inner:
+                    env["@ret:" + st.name] = run_fn(inner[0], env)
+            elif isinstance(st, ast.Assign) and len(st.targets) == 1:
+                t, v = st.targets[0], tag(st.value)
+                if isinstance(t, ast.Name):
+                    env[t.id] = v
+                elif isinstance(t, ast.Tuple) and isinstance(v, tuple) and len(v) == len(t.elts):
+                    for a, b in zip(t.elts, v):
+                        if isinstance(a, ast.Name):
+                            env[a.id] = b
+            elif isinstance(st, ast.Return):
+                return env if top else tag(st.value)
+        return env
+    env = run_fn(asm, {}, top=True)
+    if not isinstance(env, dict):
+        ctx.undecided(rule, asm, None, construct="structure", detail="assembly function returned before the scatter")
+        return
+    # scatter-adds: X.at[A].add(B)
+    adds = [c for c in ast.walk(asm.node) if isinstance(c, ast.Call) and isinstance(c.func, ast.Attribute) and c.func.attr == "add"
+            and isinstance(c.func.value, ast.Subscript) and isinstance(c.func.value.value, ast.Attribute) and c.func.value.value.attr == "at"
+            and not any(c in ast.walk(k.node) for k in kids(asm))]
+    seen = set()
+    for c in adds:
+        a, b = c.func.value.slice, c.args[0]
+        ta = env.get(a.id) if isinstance(a, ast.Name) else None
+        tb = env.get(b.id) if isinstance(b, ast.Name) else None
+        ok = (ta, tb) in (("n0", "L"), ("n1", "R"))
+        seen.add((ta, tb))
+        ctx.decide(rule, ok if None not in (ta, tb) else None, asm, c, construct=f"scatter:{ta}<-{tb}",
+                   detail=f"`{src(c)[:60]}` adds the {'(1-xi)' if tb == 'L' else 'xi'}-weighted integrals to the {'first' if ta == 'n0' else 'second'} nodes",
+                   bad_detail=f"`{src(c)[:80]}` adds the {'(1-xi)' if tb == 'L' else 'xi'}-weighted segment integrals to the {'first' if ta == 'n0' else 'second'} "
+                              f"node of each segment: the shape function 1-xi belongs to node 0 and xi to node 1 (nodal areas and gaps are swapped on partially covered segments)")
+    ok = {("n0", "L"), ("n1", "R")} <= seen
+    ctx.decide(rule, ok, asm, None, construct="both-nodes-assembled", detail="both nodes of every segment receive their integral",
+               bad_detail=f"scatter pairs found: {sorted(map(str, seen))}; both (node0, 1-xi) and (node1, xi) contributions are required")
+
+
 def o4_mortar(ctx):
     rule = "O4/T5-mortar-weights"
     sc = ctx.need(f"{MC}:integrate_with_active_mortar")
@@ -327,6 +450,11 @@ def variants(repo):
         Variant("penalty at undeformed points", P, sub_in_func("compute_edge_penalty_contact_energy", "eval_at_iso_points(quadRule.xigauss, edgeCoords+edgeDisps)", "eval_at_iso_points(quadRule.xigauss, edgeCoords)"), "O3/T13-deformed-sample-points"),
         Variant("penalty of positive part", P, sub("    negativeLsetField = np.minimum(0.0, lsetField)", "    negativeLsetField = np.maximum(0.0, lsetField)"), "O3/T8-penalty-integrand"),
         Variant("penalty not squared", P, sub("np.square(negativeLsetField))", "negativeLsetField)"), "O3/T8-penalty-integrand"),
+        Variant("mortar pair results unpacked in the wrong order", M, sub("        gapAreaLeft, gapAreaRight = jax.vmap(compute_quantities_for_segment_pair", "        gapAreaRight, gapAreaLeft = jax.vmap(compute_quantities_for_segment_pair"), "O4/T5-mortar-assembly-pairing"),
+        Variant("mortar weights swapped", M, sub("lambda xiA, xiB, gap: f_integrand(gap) * (1.0-xiA), 1e-9)", "lambda xiA, xiB, gap: f_integrand(gap) * xiA, 1e-9)"), "O4/T5-mortar-assembly-pairing"),
+        Variant("mortar scatter to the wrong node", M, sub("    nodalGapField = nodalGapField.at[nodesRight].add(gapsRight)", "    nodalGapField = nodalGapField.at[nodesLeft].add(gapsRight)"), "O4/T5-mortar-assembly-pairing"),
+        Variant("closest edge by signed distance", "optimism/contact/Contact.py", sub("        i = np.argmin( np.abs(cppDists) )\n        return edgesM[i]", "        i = np.argmin(cppDists)\n        return edgesM[i]"), "O2/T6-closest-by-absolute-distance"),
+        Variant("alpha-rename assembly", M, alpha_rename("assembly_mortar_integral"), None),
         Variant("mortar weight B from xiA", M, sub("    xiBsmooth = smooth_linear(xiB, relativeSmoothingSize)", "    xiBsmooth = smooth_linear(xiA, relativeSmoothingSize)"), "O4/T5-mortar-weights"),
         Variant("mortar weight A with abs dropped on B", M, sub("    dxiB = jnp.abs(xiBsmooth[1] - xiBsmooth[0])", "    dxiB = xiBsmooth[1] - xiBsmooth[0]"), "O4/T5-mortar-weights"),
         Variant("reformat EdgeCpp", E, reformat(), None),
